@@ -29,7 +29,7 @@ CONSTANTS
   MaxStale = 0
   Bounded = FALSE
   Mut = "none"
-INVARIANT NoViolation
 INVARIANT TraceProgress
 INVARIANT TraceDone
+INVARIANT NoViolation
 CHECK_DEADLOCK FALSE
